@@ -330,7 +330,17 @@ Theorem tconv_pad_ok_sound :
     top = K - 1 - tconv_ref_pad n K s on /\ on - n * s - top + K - 1 <= bottom /\ 0 <= bottom.
 Proof. exact tconv_pad_ok_sound_lemma. Qed.
 
+(* ---- calc_padding_and_skirt: SAME padding of convolutions and pools ---- *)
+(* the (front, behind) pair Vela computes is the reference's total padding for the dilated kernel, split with the smaller
+   half in front - the reference's padding value - for every extent, stride, kernel and dilation *)
+Theorem conv_same_padding_is_reference :
+  forall input stride k d, 0 < stride -> 0 <= input ->
+    let t := tflite_total_padding input stride (dilated_extent k d) in
+    conv_pads 1 input stride k d = (t / 2, t - t / 2).
+Proof. exact conv_pads_reference_lemma. Qed.
+
 Print Assumptions space_to_batch_conv_batch_to_space_is_dilation.
+Print Assumptions conv_same_padding_is_reference.
 Print Assumptions transposed_convolution_as_convolution.
 Print Assumptions tconv_pad_ok_sound.
 Print Assumptions needed_total_padding_is_reference.
